@@ -12,10 +12,23 @@ Oracle, written from the property text (independent of the model; brute-force di
                   (Hamming if indels are off) distance to the adapter equal to match.errors; errors <= int(rate*len)
   (b) uniqueness  N-free read on which exactly one indexed adapter has an anchored occurrence within its tolerance
                   -> the index returns that adapter
-  (c) agreement   equal lengths, no indels, N-free read, nearest adapter strictly closer than the second nearest (and no tie
-                  among the adapters that are within their own tolerance, which can differ inside one set)
+  (c) agreement   equal lengths, no indels, N-free read, nearest adapter strictly closer than the second nearest
                   -> MultipleAdapters(adapters).match_to(read) and the indexed search return the same adapter with the
                      same coordinates and errors, for several orders of the adapter list
+
+Note on clause (c). The adapters of one set may have different tolerances (per-adapter error rates). Then the strictly
+nearest adapter can lie outside its own tolerance while the nearest *admissible* adapters tie: one-by-one search reports the
+first of the tied adapters (so its own answer depends on the order), the index reports none. Whether such a read is "equally
+close to its two nearest adapters" is not clear-cut, so it is not counted either way (`oracle:agreement-skipped-tie-among-
+admissible` in the input distribution; about 1 in 10^4 reads). With one error rate for all adapters (the usual command line) the
+case cannot arise.
+
+History: on the tree before commits 6d0af29 / ecc3a50 / ee05d18 this oracle reported, and only reported,
+  C08/index-coordinates-out-of-range   read shorter than an indexed length (-a TTACTAGGGC$ -a AACTACG$ -e 0.3, read AACTACG)
+  C08/index-disagrees-with-one-by-one  uncleared ambiguity mark (^TCGTACGT ^CCGTACGT ^ACGTACGT, 1 mismatch, read ACGTACGTAAAA)
+  C08/index-errors-not-distance        N in the affix, indels on (^ACGTACGT ^TTTTGGGG -e 0.125, read ACGTACGTNA)
+Reverting any one of the three commits in a copy of the tree (VERIF_REPO=<copy> ./check C08 quick) brings back exactly its
+signature; FIXED_SETS keeps the three reproducers and the generator keeps reaching all three classes.
 """
 import functools
 import itertools
@@ -156,9 +169,13 @@ def oracle_read(ctx, kind, indels, ads, adapters, ix, read, perms):
         soundness(ctx, kind, indels, ads, adapters, read, m, "index")
         if m.errors > 0:
             ctx.nontriv(("I", kind, indels, tuple(ads), read))
+        if len(read) < ix._index._lengths[0]:
+            ctx.count("reach:match-on-read-shorter-than-an-indexed-length")      # class of 6d0af29
     up = read.upper()
     if "N" in up:
         ctx.count("read:with-N")
+        if m is not None and indels:
+            ctx.count("reach:match-with-N-and-indels")                           # class of ee05d18
         return m
     inp = dict(kind=kind, indels=indels, adapters=ads, read=read)
     # (b)
@@ -183,6 +200,8 @@ def oracle_read(ctx, kind, indels, ads, adapters, ix, read, perms):
             ctx.count("oracle:agreement-skipped-tie-among-admissible")
         elif ds[0] < ds[1]:
             ctx.count("oracle:agreement-applicable")
+            if len(adm) >= 3 and adm[0] == ds[0] and len(set(adm[1:])) < len(adm[1:]):
+                ctx.count("reach:tie-between-worse-admissible-adapters")         # class of ecc3a50
             for order, p_adapters, p_ix, p_multi in perms:
                 a_ = p_ix.match_to(read)
                 b_ = p_multi.match_to(read)
@@ -454,7 +473,7 @@ def sphere_env_exhaustive(ctx, maxlen):
 
 
 FIXED_SETS = [
-    # the two reproducers of DESIGN.md §12 and close relatives
+    # the reproducers of the three repaired defects (regression guards) and close relatives
     ("suffix", True, [("TTACTAGGGC", 0.3), ("AACTACG", 0.3)], ["AACTACG", "TTACTAGGGC", "GGTTACTAGGGC", "CTACG", "TTACTAGNGC", "aactacg"]),
     ("prefix", True, [("TTACTAGGGC", 0.3), ("AACTACG", 0.3)], ["AACTACG", "TTACTAGGGC", "AACTACGT", "AACTA"]),
     ("prefix", False, [("TCGTACGT", 0.125), ("CCGTACGT", 0.125), ("ACGTACGT", 0.125)], ["ACGTACGTAAAA", "ACGTACGT", "TCGTACGTAA", "GCGTACGTAA", "NCGTACGTAA"]),
